@@ -182,7 +182,7 @@ fn case(tier: Tier, rng: &mut Rng, rep: &mut Report) {
 }
 
 pub fn run(tier: Tier, seed: u64) -> MonOut {
-    let n = tier.n(1_500, 80_000);
+    let n = tier.n(40_000, 1_500_000);
     let rep = par_cases(seed, n, |_i, rng, rep| case(tier, rng, rep));
     MonOut {
         report: rep,
